@@ -36,9 +36,18 @@ def flatnonzero (m : List Bool) : List Nat :=
 def maskL {α} (xs : List α) (m : List Bool) : List α :=
   ((xs.zip m).filter (fun p => p.2)).map (fun p => p.1)
 
+/-- insert `x` in front of the first element that is not smaller (keeps equal keys in input order) -/
+def insertSorted {α} (le : α → α → Bool) (x : α) : List α → List α
+  | [] => [x]
+  | y :: ys => if le x y then x :: y :: ys else y :: insertSorted le x ys
+
+/-- a stable sort (insertion sort, structurally recursive): the unique sorted permutation in which
+elements with equal keys keep their input order — what `kind='stable'` guarantees -/
+def stableSort {α} (le : α → α → Bool) (l : List α) : List α := l.foldr (insertSorted le) []
+
 /-- `np.argsort(xs, kind='stable')` -/
 def argsortStable (xs : List Nat) : List Nat :=
-  (xs.zipIdx.mergeSort (fun a b => decide (a.1 ≤ b.1))).map (fun p => p.2)
+  (stableSort (fun a b => decide (a.1 ≤ b.1)) xs.zipIdx).map (fun p => p.2)
 
 /-- `xs[idx]` for an integer index array of non-negative indices -/
 def gather {α} (xs : List α) : List Nat → Except Err (List α)
@@ -79,7 +88,7 @@ def decU32 (r : Nat) : Nat := if r = 0 then 4294967295 else r - 1
 
 /-- `data[data_sorter]` paired with `data_sorter` -/
 def sortedPairs (data : List Int) : List (Int × Nat) :=
-  data.zipIdx.mergeSort (fun a b => decide (a.1 ≤ b.1))
+  stableSort (fun a b => decide (a.1 ≤ b.1)) data.zipIdx
 
 /-- one element of `to_find`: `searchsorted(…, side='left')`, `side='right'` on the sorted data are the
 lengths of the prefixes `< x` and `≤ x` -/
@@ -432,7 +441,8 @@ def applyPlacement (m : Mem) (name : Nat) (segs : List (Int × Nat)) (o : Out) :
       let (m3, w2s3) :=
         if o.amend.any (fun b => b) then
           let (m3, first) := amendSegments m2 (maskL segs o.amend)
-          (m3, assignMask w2s2 o.amend ((List.range (maskL segs o.amend).length).map (fun j => ((first + j : Nat) : Int))))
+          -- segment_index + np.arange(len(segments))
+          (m3, assignMask w2s2 o.amend ((List.range' first (maskL segs o.amend).length).map (fun (j : Nat) => (j : Int))))
         else (m2, w2s2)
       ({ m3 with progs := m3.progs ++ [⟨name, w2s3, segs.map (fun s => s.1)⟩] }, .ok)
 
